@@ -6,6 +6,8 @@ import (
 	"fmt"
 	"io"
 	"math/rand"
+	"os"
+	"time"
 	"strings"
 
 	"filippo.io/age"
@@ -345,7 +347,11 @@ func (m *monitor) decryptSweep(files []*dfile) {
 	}
 	mon.Par(len(tasks), func(i int) {
 		t := tasks[i]
+		t1 := time.Now()
 		r.Guard("dec:"+t.f.name()+"/sched="+t.s.name, func() { m.runTask(t) })
+		if d := time.Since(t1); d > 3*time.Second && os.Getenv("C12_TIMING") != "" {
+			fmt.Printf("   timing: slow task %s sched=%s %.1fs\n", t.f.name(), t.s.name, d.Seconds())
+		}
 	})
 	for _, f := range files[:min(len(files), 3)] {
 		r.Sample(map[string]any{"file": f.name(), "bytes": len(f.data), "baseline": f.bDecrypt.String(),
